@@ -100,6 +100,10 @@ def tmpLike (N : Nat) (dst : DCt) : DCt :=
 def bufOfK (env : Env) (N : Nat) (like : DCt) (k : Nat) : DCt :=
   ⟨{ like.g with k := k, cols := zeroC N like.g.cols.length (divCeil k env.base2k) }, ⟨0, 0⟩⟩
 
+/-- `ckks_mul_{add,sub}_*_into`: the product into `take_mul_tmp(dst)`, then `ckks_{add,sub}_assign(dst, tmp)` -/
+def dMulAddWith (env : Env) (N : Nat) (sub : Bool) (dst : DCt) (prod : DCt → Outcome DCt) : Outcome DCt :=
+  bind (prod (tmpLike N dst)) fun tmp => dAddAssign env N sub dst tmp
+
 /-- `accumulate_unnormalized`: every further product goes into a temporary and is added without normalisation -/
 def dAccumulate (env : Env) (N : Nat) (first : Outcome DCt) (terms : List (DCt → Outcome DCt)) : Outcome DCt :=
   let r := terms.foldl (fun (acc : Outcome DCt) t =>
@@ -214,6 +218,8 @@ inductive XOp where
   | squareAssign (d : Nat)
   | mulPt (d a : Nat) (pt : Pt) (pg : Col)
   | mulPtAssign (d : Nat) (pt : Pt) (pg : Col)
+  | mulAdd (sub : Bool) (d a b : Nat)
+  | mulAddPt (sub : Bool) (d a : Nat) (pt : Pt) (pg : Col)
   | addMany (d : Nat) (as : List Nat)
   | dotCt (d : Nat) (as bs : List Nat)
   | dotPt (d : Nat) (as : List Nat) (pt : Pt) (pgs : List Col)
@@ -246,6 +252,8 @@ def xstep (env : Env) (N : Nat) (mk : MulKey) (ak : AutKeys) (pool : DPool) : XO
   | .squareAssign d => dop1 pool d (fun cd => dSquareInto env N mk cd cd)
   | .mulPt d a pt pg => dop2 pool d a (fun cd ca => dMulPtInto env N mk.big cd ca pt pg)
   | .mulPtAssign d pt pg => dop1 pool d (fun cd => dMulPtInto env N mk.big cd cd pt pg)
+  | .mulAdd sub d a b => dop3 pool d a b (fun cd ca cb => dMulAddWith env N sub cd (fun t => dMulInto env N mk t ca cb))
+  | .mulAddPt sub d a pt pg => dop2 pool d a (fun cd ca => dMulAddWith env N sub cd (fun t => dMulPtInto env N mk.big t ca pt pg))
   | .addMany d as => dopN pool d as (dAddMany env N)
   | .dotCt d as bs =>
     match pool[d]?, dgetAll pool d as, dgetAll pool d bs with
